@@ -218,7 +218,7 @@ def gen_row(rnd, lay):
     regexk = lay['kind'] == 'regex'
     n = len(roles)
     kind = rnd.choices(['good', 'short', 'long', 'blankline', 'baddate', 'blankdesc', 'odd', 'nonfinite', 'zero', 'badamount',
-                        'blankdate', 'fuzz'], [44, 8, 5, 4, 6, 5, 10, 4, 4, 4, 2, 8])[0]
+                        'blankdate', 'fuzz', 'widthdate'], [44, 8, 5, 4, 6, 5, 10, 4, 4, 4, 2, 8, 5])[0]
     if kind == 'blankline':
         return {'blank': True, 'kind': kind, 'truth': 'reject'}
     cells, caps = [], {}
@@ -233,6 +233,13 @@ def gen_row(rnd, lay):
                 c, truth = rnd.choice(BAD_DATES), 'reject'
             elif kind == 'blankdate':
                 c, truth = rnd.choice(BLANKS), 'reject'
+            elif kind == 'widthdate':      # right separators, all digits, other digit counts: strptime is the reference
+                c = rnd.choice(date_width_variants(fmt, rnd.randint(2001, 2031), rnd.randint(1, 12), rnd.randint(1, 28)) or [ds])
+                ref = strptime_ref(c, fmt)
+                if ref is None:
+                    truth = 'reject'
+                else:
+                    diso = ref
             elif ' ' not in fmt and rnd.random() < .12:
                 c = ds + rnd.choice(['  Mon', ' Tue', '\tx', ' Wed extra'])      # day suffix is dropped by the reader
             c = rnd.choice(PADS) + c + rnd.choice(PADS)
@@ -315,6 +322,96 @@ def gen_case(rnd, nrows=None):
     case = {'source': src, 'lay': lay, 'rows': rows, 'header': header,
             'quoting': rnd.choice([csv.QUOTE_MINIMAL, csv.QUOTE_MINIMAL, csv.QUOTE_ALL]), 'lt': rnd.choice(['\n', '\r\n', '\n'])}
     return case
+
+
+def strptime_ref(text, fmt):
+    """What datetime.strptime makes of the text the reader hands it (strip; first token when the format has no blank)."""
+    t = text.strip()
+    if ' ' not in fmt and t:
+        t = t.split()[0]
+    try:
+        return datetime.strptime(t, fmt).isoformat()
+    except ValueError:
+        return None
+
+
+def date_width_variants(fmt, y, m, d):
+    """The date y-m-d written under a numeric format with every combination of field widths (2/3/4/5-digit years,
+    unpadded / padded / over-padded months and days)."""
+    if not re.fullmatch(r'(%[dmYy][/.\- ]?){3}', fmt):
+        return []
+    ys = [str(y), '%02d' % (y % 100), '0' + str(y), '%03d' % (y % 1000), str(y % 10), str(y) + '0']
+    ms = ['%02d' % m, str(m), '%03d' % m]
+    ds_ = ['%02d' % d, str(d), '%03d' % d]
+    out = []
+    for yy in ys:
+        for mm in ms:
+            for dd in ds_:
+                out.append(fmt.replace('%Y', yy).replace('%y', yy).replace('%m', mm).replace('%d', dd))
+    return out
+
+
+NUMERIC_DATE_FORMATS = ['%m/%d/%Y', '%d/%m/%Y', '%Y/%m/%d', '%d.%m.%Y', '%Y.%m.%d', '%Y-%m-%d', '%m-%d-%Y', '%d-%m-%Y', '%Y%m%d',
+                        '%m/%d/%y', '%d.%m.%y']
+
+
+def date_corpus():
+    """Every numeric date layout x every field-width combination of three dates (+ the seeds' literal cells); the row is
+    well-formed exactly when datetime.strptime accepts the cell."""
+    out = []
+    for k, fmt in enumerate(NUMERIC_DATE_FORMATS):
+        cells = []
+        for (y, m, d) in [(2024, 3, 15), (2005, 4, 3), (2012, 12, 31)]:
+            cells += date_width_variants(fmt, y, m, d)
+        cells += ['03/15/24', '3/4/5', '003/015/2024', '12/31/02024', '24-03-15', '024-01-09', '2024-1-9', '15.3.24', '1.1.1',
+                  '2024/03/15/', '/03/15/2024', '03//15/2024', '03/15/2024/1', '+3/15/2024', '3/ 15/2024', '٣/15/2024']
+        cells = list(dict.fromkeys(cells))
+        for off in range(0, len(cells), 12):
+            src = {'name': 'Bank', 'format': '{date:%s}, {description}, {amount}' % fmt, 'has_header': False}
+            if fmt == '%m/%d/%Y' and (off // 12) % 2:
+                src['format'] = '{date}, {description}, {amount}'        # the default date format
+            rows = []
+            for j, c in enumerate(cells[off:off + 12]):
+                ref = strptime_ref(c, fmt)
+                row = {'cells': [c, 'DATED %d' % j, '%d.25' % (j + 1)], 'kind': 'widthdate', 'truth': 'accept' if ref else 'reject'}
+                if ref:
+                    row['expect'] = {'date': ref, 'desc': 'DATED %d' % j, 'value': [4 * (j + 1) + 1, 4], 'field': None}
+                rows.append(row)
+            lay = {'mode': 'desc', 'roles': ['date', 'description', 'amount'], 'names': [], 'date_format': fmt, 'conv': '.',
+                   'kind': 'csv', 'delim_char': ',', 'regex': None, 'opt_last': False, 'tmpl_pieces': None, 'has_header': False}
+            out.append({'source': src, 'lay': lay, 'rows': rows, 'header': [], 'quoting': csv.QUOTE_MINIMAL, 'lt': '\n'})
+    return out
+
+
+def settings_corpus():
+    """amount token {amount, -amount, +amount} x negate_amount {absent, true, false} x has_header {absent, true, false}
+    x delimiter {absent, ',', ';', 'tab'}: explicit settings override what the format string / defaults say."""
+    out = []
+    vals = [('COFFEE', '4.50', Fraction(9, 2)), ('REFUND', '-12.00', Fraction(-12)), ('PAREN', '(3.25)', Fraction(-13, 4))]
+    n = 0
+    for tok in ['', '-', '+']:
+        for neg in [None, True, False]:
+            for hh in [None, True, False]:
+                dl = [None, ',', ';', 'tab'][n % 4]
+                n += 1
+                src = {'name': 'Bank', 'format': '{date:%%Y-%%m-%%d}, {description}, {%samount}' % tok}
+                if neg is not None:
+                    src['negate_amount'] = neg
+                if hh is not None:
+                    src['has_header'] = hh
+                if dl is not None:
+                    src['delimiter'] = dl
+                rows = []
+                for j, (de, am, v) in enumerate(vals):
+                    rows.append({'cells': ['2024-05-%02d' % (1 + j), de, am], 'kind': 'good', 'truth': 'accept',
+                                 'expect': {'date': '2024-05-%02dT00:00:00' % (1 + j), 'desc': de, 'value': [v.numerator, v.denominator],
+                                            'field': None}})
+                lay = {'mode': 'desc', 'roles': ['date', 'description', 'amount'], 'names': [], 'date_format': '%Y-%m-%d', 'conv': '.',
+                       'kind': 'csv', 'delim_char': {None: ',', ',': ',', ';': ';', 'tab': '\t'}[dl], 'regex': None, 'opt_last': False,
+                       'tmpl_pieces': None, 'has_header': True if hh is None else hh}
+                out.append({'source': src, 'lay': lay, 'rows': rows, 'header': ['2024-05-09', 'LOOKS LIKE DATA', '1.00'],
+                            'quoting': csv.QUOTE_MINIMAL, 'lt': '\n'})
+    return out
 
 
 def mangle_header_cell(rnd, h):
@@ -452,7 +549,7 @@ def corpus_cases():
        [{'cells': ['2024-01-05', '4.50'], 'kind': 'short', 'truth': 'reject'},
         {'cells': ['2024-01-06', '5.50', 'SHOP'], 'kind': 'good', 'truth': 'accept',
          'expect': {'date': '2024-01-06T00:00:00', 'desc': 'xSHOP', 'value': [11, 2], 'field': [('merchant', 'SHOP')]}}])
-    return out + amount_corpus() + header_corpus()
+    return out + amount_corpus() + header_corpus() + date_corpus() + settings_corpus()
 
 
 # =====================================================================================================
@@ -528,6 +625,17 @@ def mode_of(spec):
     return 'abs' if spec['abs_amount'] else ('neg' if spec['negate_amount'] else 'plain')
 
 
+def expected_mode(src):
+    """The sign mode the SOURCE asks for: {+amount} = absolute value; otherwise the negate_amount setting when it is
+    given (true or false), else the {-amount} prefix.  Computed from the settings, never from the implementation."""
+    m = re.search(r'\{([-+]?)amount\}', src['format'], re.I)
+    tok = m.group(1) if m else ''
+    if tok == '+':
+        return 'abs'
+    neg = bool(src['negate_amount']) if 'negate_amount' in src else (tok == '-')
+    return 'neg' if neg else 'plain'
+
+
 def apply_mode_q(mode, v):
     return abs(v) if mode == 'abs' else (-v if mode == 'neg' else v)
 
@@ -568,7 +676,7 @@ def oracle(case, r):
     #     (only when CPython's csv.reader gives back the cells that were written)
     tokens_ok = 'lib' in r and (case['lay']['kind'] != 'csv' or r['lib'].get('records') == intended_records(case))
     if 'singles' in r and 'spec' in r and tokens_ok:
-        mode = mode_of(r['spec'])
+        mode = expected_mode(case['source'])
         for i, (row, s) in enumerate(zip(case['rows'], r['singles'])):
             if 'error' in s or row['truth'] is None:
                 continue
@@ -607,7 +715,7 @@ def oracle(case, r):
                 if strip_amount(tp) != strip_amount(tn) or strip_amount(tp) != strip_amount(ta) or fn != -fp or fa != abs(fp):
                     bad.append(('sign-mode-relation', {'plain': tp, 'neg': tn, 'abs': ta}))
                     break
-        cur = mode_of(r['spec'])
+        cur = expected_mode(case['source'])
         same = {'plain': p, 'neg': n, 'abs': a}[cur]
         if same != txns:
             bad.append(('sign-setting-not-equivalent-to-format-prefix', {'mode': cur}))
